@@ -19,7 +19,8 @@ Python ↔ model (priority.py line numbers of the unchanged tree)
   _take_lock 185-192       : `takeLock`   (the `assert self._owning is None` is NOT modelled as a
                              guard: the ghost field `owns` records every task that took the lock,
                              and mutual exclusion is a theorem about `owns`)
-  release 194-208          : `Ev.release`
+  release 194-208          : `Ev.release`; `Ev.badRelease` = the refusing branch (lock not locked, or
+                             `assert self._owning() is task` fails): nothing is changed
   _wake_up_first 210-217   : `wakeUpFirst` (repaired form)
   propagate_priority 236-263, 372-388 : `propT` / `propL`
   effective_priority       : `PrioGraph.effT` on `State.graph`
@@ -98,6 +99,7 @@ inductive Ev where
   | resume (i : Nat)
   | acquire (k : Nat)
   | release (k : Nat)
+  | badRelease (k : Nat)   -- `release()` by a task that does not hold the lock: refused, no change
   | sleep
   | wait (e : Nat)
   | finish
@@ -215,6 +217,9 @@ def Ev.enabled (s : State) : Ev → Bool
   | .release k => match s.cur with
       | some i => (s.locks k).owner == some i
       | none => false
+  | .badRelease k => match s.cur with
+      | some i => (s.locks k).owner != some i
+      | none => false
   | .sleep => s.cur.isSome
   | .wait _ => s.cur.isSome
   | .finish => match s.cur with
@@ -313,6 +318,7 @@ def State.apply (s : State) : Ev → State
   | .resume i => s.doResume i
   | .acquire k => match s.cur with | some i => s.doAcquire i k | none => s
   | .release k => match s.cur with | some i => s.doRelease i k | none => s
+  | .badRelease _ => s      -- priority.py:206-211: RuntimeError / AssertionError before any change
   | .sleep => match s.cur with
       | some i => { s.enqueue i (.ready false) with cur := none }
       | none => s
